@@ -384,7 +384,7 @@ class Rewriter:
         raise ExtractError("no block after position %d" % start)
 
     # R3 / R6 -------------------------------------------------------------
-    def splice_fn(self, ret_name, spec, loops, before, after_open=None):
+    def splice_fn(self, ret_name, spec, loops, before, after_open=None, loop_open=None):
         """Name the result, insert requires/ensures after the signature, loop
         invariants before loop bodies, proof text before literal anchors."""
         inserts = []  # (pos, text)
@@ -416,7 +416,8 @@ class Rewriter:
             inserts.append((ob, ob, "\n" + spec.rstrip() + "\n"))
             self.hit("R6-spec")
         # loops
-        if loops:
+        if loops or loop_open:
+            loops = loops or {}
             kws = []
             for mm in re.finditer(r"\b(loop|while|for)\b", m[ob:]):
                 a = ob + mm.start()
@@ -430,6 +431,12 @@ class Rewriter:
                 lb = self._block_open(m, a + 3)
                 inserts.append((lb, lb, "\n" + inv.rstrip() + "\n"))
                 self.hit("R6-loop")
+            for k, txt in (loop_open or {}).items():
+                if k < 1 or k > len(kws):
+                    raise ExtractError("%s: loop#%d not found (%d loops)" % (self.label, k, len(kws)))
+                lb = self._block_open(m, kws[k - 1] + 3)
+                inserts.append((lb + 1, lb + 1, "\n" + txt.rstrip() + "\n"))
+                self.hit("R6-proof")
         for item in before or []:
             lit, txt = item[0], item[1]
             occ = item[2] if len(item) > 2 else None
